@@ -42,7 +42,7 @@ REQUIRED = {
             "swallowed:teleopPeriodic-in-auto": 5, "swallowed:feedback": 10, "swallowed:mode.on_iteration": 5,
             "swallowed:init": 10, "swallowed:periodic": 10, "propagated": 100, "iterations-after-fault": 500,
             "trace-equals-fault-free-twin": 200, "prefix-equals-fault-free-twin": 100, "fault-after-fms-change": 10,
-            "fault-without-fms-but-with-match-info": 50, "driver-station-changed-mid-iteration": 300},
+            "fault-without-fms-but-with-match-info": 50, "fault-inside-consumeExceptions-block": 20, "driver-station-changed-mid-iteration": 300},
     "C10": {"assign-enabled": 500, "reset-checked-at-arrival": 2000, "assign-disabled-dontcare": 50, "sentinel-assign": 50,
             "fault-in-reset-iteration": 20, "snapshot-checked": 20000,
             "marker-redeclared-in-subclass": 30, "marker-shadowed-by-plain-attribute": 30, "two-components-one-class": 50,
@@ -184,6 +184,9 @@ def gen_case(rng, pid, uid):
     spec = {"uid": uid, "pid": pid, "period_us": period, "teleop_in_auto": rng.random() < 0.5, "fms": False,
             "robot_classes": robot_classes, "components": comps, "robot_feedbacks": robot_fbs, "modes": modes,
             "history": hist, "disabled_flags": dflags, "super_robot_periodic": rng.random() < 0.3, "plan": {}}
+    if rng.random() < (0.4 if pid == "C07" else 0.1):
+        # some periodic methods wrap their body in `with self.consumeExceptions():` and carry on after the block
+        spec["consume_hooks"] = sorted(rng.sample(["disabledPeriodic", "teleopPeriodic", "testPeriodic"], rng.choice([1, 2, 3])))
     if rng.random() < (0.5 if pid == "C07" else 0.1):
         spec["match_type"] = rng.choice(["practice", "qualification", "elimination"])
     if modes and rng.random() < 0.3:
@@ -382,6 +385,7 @@ def expected_chunks(spec):
     chunks = []
     meta = []
     om = {f"R.{h}" for h in spec.get("omit_hooks", ())}
+    cons = {f"R.{h}" for h in spec.get("consume_hooks", ())} - om
     startup = [("set", [f"{comps[c].get('same_class_as', c)}.ctor" for c in order], "C06"), ("set", [f"{c}.setup" for c in order if comps[c]["has_setup"]], "C06")]
     prev = None
     for si, (m, dwell) in enumerate(spec["history"]):
@@ -396,6 +400,9 @@ def expected_chunks(spec):
             slots += iteration(m)
             if om:
                 slots = [(k_, [x for x in st_ if x not in om], o_) for k_, st_, o_ in slots]
+            if cons:
+                slots = [(k_, [y for x in st_ for y in ((x, x + ".after") if x in cons else (x,))], o_) if k_ == "seq" else (k_, st_, o_)
+                         for k_, st_, o_ in slots]
             chunks.append([s for s in slots if s[1]])
             meta.append({"mode": m, "seg": si, "k": k, "prev": prev if k == 0 else m})
         prev = m
@@ -987,6 +994,10 @@ def run_case(spec, acc):
         V.ev("statemachine-component")
     if spec.get("omit_hooks"):
         V.ev("robot-without-some-mode-hooks")
+    if spec.get("consume_hooks"):
+        V.ev("periodic-method-uses-consumeExceptions")
+        if any(e[0] == "raise" and e[1][2:] in spec["consume_hooks"] for e in run.log):
+            V.ev("fault-inside-consumeExceptions-block")
     if spec.get("match_type"):
         V.ev("match-info-present:" + spec["match_type"])
         if not spec["fms"] and not spec.get("fms_changes") and any(e[0] == "raise" for e in run.log):
